@@ -103,6 +103,18 @@ def sweep_cases(tier):
     process exits (or not), then activity B runs j yield points, then everything runs out.
     A/B over {cancel handler, watcher, timeout watcher}"""
     imax = 14 if tier == 'quick' else 22
+    # intake preempted after i yield points by a complete cancel request (and the process exiting)
+    for i in range(imax + 10):
+        for ex in ('none', 'mid', 'late'):
+            for j in (0, 16):
+                moves = [['submit'], ['named', 'intake', i], ['cancel', [0]], ['named', 'cancel', 60]]
+                if ex == 'mid':
+                    moves.append(['exit', 0])
+                moves.append(['named', 'watch', j])
+                moves.append(['named', 'intake', 3])
+                if ex == 'late':
+                    moves.append(['exit', 0])
+                yield {'kind': 'sweep', 'spawner': 'POPEN', 'bulks': [[{'exit': 0}]], 'moves': moves}
     for a, b in (('cancel', 'watch'), ('watch', 'cancel'), ('to', 'watch'), ('watch', 'to'),
                  ('cancel', 'to'), ('to', 'cancel')):
         for i in range(imax):
